@@ -16,6 +16,10 @@ func init() {
 				_, nSink := reportOrderEvents(p, r, or, orderRules{sink: "R15d"})
 				r.Floor("R15d", "requires-sorted call sites reached from the tracker", nSink, 2)
 			}},
+			{ID: "R15f", Statement: "recording a block applies its deletions", Run: func(p *Program, r *Report) {
+				r.Rule("R15f", "RECORD-APPLIES-DELETIONS: every root-info state the tracker records for a block (except the first) is computed by the call that applies the block's deletions to the previous root infos")
+				checkRecordAppliesDeletions(p, r, "R15f")
+			}},
 			{ID: "R15e", Statement: "TTL table is fresh", Run: func(p *Program, r *Report) {
 				r.Rule("R15e", "TTL-FRESH: the generator recomputes the TTL table before reading it, or refreshes it under a flag that recording a block resets")
 				checkTTLFresh(p, r, "R15e")
